@@ -217,6 +217,8 @@ type c14Claim struct {
 	exclusive string // non-empty: kind of exclusivity
 	exempt    bool
 	held      bool // completed by the harness, not by the runner
+	// snapd downgrade only: the revision being reverted to
+	downgradeTo snap.Revision
 }
 
 type c14Model struct {
@@ -686,11 +688,26 @@ func (s *verifC14Suite) c14History(c *C, k *kit.Check, idx int, sc c14Script) {
 		// is an accepted revert of snapd a downgrade? (input of the model:
 		// the versions the harness gave the revisions)
 		snapdDowngrade := false
+		var downgradeTo snap.Revision
 		if req.Op == "revert" && len(req.Snaps) == 1 && req.Snaps[0] == "snapd" {
 			var snapst snapstate.SnapState
 			if err := snapstate.Get(st, "snapd", &snapst); err == nil {
 				if pi := snapstate.PreviousSideInfo(&snapst); pi != nil && pi.Revision.N < snapst.Current.N {
 					snapdDowngrade = true
+					downgradeTo = pi.Revision
+				}
+			}
+		}
+		// exclKind is what the signatures and counters carry. For a snapd
+		// downgrade it tells the phase: has the downgrade change already
+		// made the lower revision the current one?
+		exclKind := ""
+		if excl != nil {
+			exclKind = excl.exclusive
+			if exclKind == "snapd-downgrade" {
+				var snapst snapstate.SnapState
+				if err := snapstate.Get(st, "snapd", &snapst); err == nil && snapst.Current == excl.downgradeTo {
+					exclKind = "snapd-downgrade-after-link"
 				}
 			}
 		}
@@ -704,7 +721,7 @@ func (s *verifC14Suite) c14History(c *C, k *kit.Check, idx int, sc c14Script) {
 
 		tr := c14Trace{Op: req.Op, Snaps: strings.Join(req.Snaps, ","), Busy: blocking != nil, Progress: step.Progress}
 		if excl != nil {
-			tr.Excl = excl.exclusive
+			tr.Excl = exclKind
 		}
 		if blocking != nil {
 			k.Count("busy_at_request", 1)
@@ -713,7 +730,7 @@ func (s *verifC14Suite) c14History(c *C, k *kit.Check, idx int, sc c14Script) {
 		}
 		if excl != nil {
 			k.Count("exclusive_probes", 1)
-			k.Count("exclusive_probes_under_"+excl.exclusive, 1)
+			k.Count("exclusive_probes_under_"+exclKind, 1)
 			sawBusy = true
 		}
 
@@ -739,8 +756,9 @@ func (s *verifC14Suite) c14History(c *C, k *kit.Check, idx int, sc c14Script) {
 				k.Count("changes_created", 1)
 				trace = append(trace, tr)
 				if excl != nil {
-					k.Violation("C14:exclusive-ignored:"+excl.exclusive+":"+req.Op, witness(i, map[string]interface{}{
-						"request": req, "exclusive_change": excl.chg.ID(), "exclusive_kind": excl.exclusive,
+					k.Violation("C14:exclusive-ignored:"+exclKind+":"+req.Op, witness(i, map[string]interface{}{
+						"request": req, "exclusive_change": excl.chg.ID(), "exclusive_kind": exclKind,
+						"exclusive_change_status": excl.chg.Status().String(), "outcome": "accepted",
 						"created_change": chg.ID(), "expected": "rejected with *ChangeConflictError while the exclusive change is unready",
 					}))
 				}
@@ -757,6 +775,7 @@ func (s *verifC14Suite) c14History(c *C, k *kit.Check, idx int, sc c14Script) {
 				cl := &c14Claim{chg: chg, op: req.Op, snaps: out.affected}
 				if snapdDowngrade {
 					cl.exclusive = "snapd-downgrade"
+					cl.downgradeTo = downgradeTo
 					k.Count("exclusive_changes_started", 1)
 					k.Count("exclusive_started_snapd-downgrade", 1)
 				}
@@ -790,13 +809,20 @@ func (s *verifC14Suite) c14History(c *C, k *kit.Check, idx int, sc c14Script) {
 					k.Count("precondition_"+class, 1)
 				case req.Op == "refresh-all":
 					// names no snap
+				case excl != nil:
+					// the request got past the conflict check although an
+					// exclusive change is unready (it failed later for
+					// another reason)
+					k.Violation("C14:exclusive-ignored:"+exclKind+":"+req.Op, witness(i, map[string]interface{}{
+						"request": req, "exclusive_change": excl.chg.ID(), "exclusive_kind": exclKind,
+						"exclusive_change_status": excl.chg.Status().String(),
+						"outcome":                 "rejected, but not by the conflict check", "error": out.err.Error(), "error_type": fmt.Sprintf("%T", out.err),
+						"expected": "*ChangeConflictError (or a precondition error returned before the conflict check)",
+					}))
 				default:
-					why := "busy"
-					if blocking == nil {
-						why = "exclusive"
-					}
-					k.Violation("C14:not-a-conflict-error:"+why+":"+req.Op, witness(i, map[string]interface{}{
+					k.Violation("C14:not-a-conflict-error:busy:"+req.Op, witness(i, map[string]interface{}{
 						"request": req, "error": out.err.Error(), "error_type": fmt.Sprintf("%T", out.err),
+						"unready_change": blocking.chg.ID(), "unready_change_kind": blocking.chg.Kind(),
 						"expected": "*ChangeConflictError (or a precondition error returned before the conflict check)",
 					}))
 				}
